@@ -13,8 +13,9 @@ def setInsert (seen : List Spec) (s : Spec) : List Spec :=
   if s ∈ seen then seen else s :: seen
 
 /-- The `while let Some(specifier) = self.redirects.get(redirected_specifier)` loop.
-`fuel` bounds the iterations; `resolveLoop_fuel` shows `max` is always enough. -/
-def resolveLoop (redir : Spec → Option Spec) (max : Nat) :
+`cap = some max` is the `MAX_REDIRECTS` check (`seen.len() >= MAX_REDIRECTS`), `none` when the
+source has no such check.  `fuel` bounds the iterations. -/
+def resolveLoop (redir : Spec → Option Spec) (cap : Option Nat) :
     Nat → List Spec → Spec → Spec
   | 0, _, cur => cur
   | fuel + 1, seen, cur =>
@@ -23,17 +24,29 @@ def resolveLoop (redir : Spec → Option Spec) (max : Nat) :
     | some s =>
       if s ∈ seen then cur            -- `!seen.insert(specifier)` ⇒ break (cycle)
       else
-        if (s :: seen).length ≥ max then s   -- cap reached ⇒ break after the move
-        else resolveLoop redir max fuel (s :: seen) s
+        match cap with
+        | some max =>
+          if (s :: seen).length ≥ max then s   -- cap reached ⇒ break after the move
+          else resolveLoop redir cap fuel (s :: seen) s
+        | none => resolveLoop redir cap fuel (s :: seen) s
 
-/-- `ModuleGraph::resolve` for an arbitrary redirect function and cap. -/
-def resolveWith (redir : Spec → Option Spec) (max : Nat) (s : Spec) : Spec :=
+/-- `ModuleGraph::resolve` for an arbitrary redirect function, cap and fuel. -/
+def resolveWith (redir : Spec → Option Spec) (cap : Option Nat) (fuel : Nat) (s : Spec) : Spec :=
   match redir s with
   | none => s
-  | some s1 => resolveLoop redir max max (setInsert [s] s1) s1
+  | some s1 => resolveLoop redir cap fuel (setInsert [s] s1) s1
+
+/-- the cap as found in the source (regenerated table) -/
+def resolveCap : Option Nat := if resolveHasCap then some resolveMaxRedirects else none
+
+/-- iterations that are always enough: the cap, or (without a cap) one per redirect entry -/
+def Graph.resolveFuel (g : Graph) : Nat :=
+  match resolveCap with
+  | some max => max
+  | none => g.redirects.length + 1
 
 def Graph.resolve (g : Graph) (s : Spec) : Spec :=
-  resolveWith g.redirect resolveMaxRedirects s
+  resolveWith g.redirect resolveCap g.resolveFuel s
 
 /-- `ModuleGraph::get` (as "is there a module, and under which key") -/
 def Graph.get (g : Graph) (s : Spec) : Option Spec :=
